@@ -97,6 +97,9 @@ def insert (hasDb : Bool) (s : Store) : Nat → WN → List Nib → WN → IRes
           if vv = nv then { node := .value vh vv vw vd }
           else { node := .value vh nv nw true, change := (nw : Int) - vw }
         | _ => { node := node, err := some .panic }
+      -- fix 5dc7120: the key ends at a branch or short node below the full key depth
+      | .routing _ _ _ _ _ => { node := node, err := some .invalidKey }
+      | .short _ _ _ _ _ => { node := node, err := some .invalidKey }
       | _ => { node := value, change := value.weight }
   | fuel + 1, node, k :: ks, value =>
     match node with
@@ -111,6 +114,9 @@ def insert (hasDb : Bool) (s : Store) : Nat → WN → List Nib → WN → IRes
       if p = key.length then
         let r := insert hasDb s fuel c ((k :: ks).drop p) value
         { node := .short key h r.node true tc, change := r.change, err := r.err, td := r.td }
+      else if p = (k :: ks).length then
+        -- fix 5dc7120: the key ends inside this node's key
+        { node := .short key h c true tc, err := some .invalidKey }
       else
         match nibOf (key.getD p 0), (k :: ks)[p]? with
         | some i1, some i2 =>
